@@ -3,6 +3,7 @@
 export GOFLAGS=-mod=mod GOPROXY=off GOSUMDB=off GOTOOLCHAIN=local
 repo=${VERIF_REPO:-/repo}
 work=$(mktemp -d /tmp/gocv-bounded.XXXXXX); trap 'rm -rf "$work"' EXIT
-printf '{"Replace":{"%s/compress/flate/zz_bounded_disttab_test.go":"/verif/bounded/disttab_test.go","%s/compress/flate/zz_bounded_clctab_test.go":"/verif/bounded/clctab_test.go","%s/compress/flate/zz_bounded_littab_test.go":"/verif/bounded/littab_test.go"}}' "$repo" "$repo" "$repo" > $work/overlay.json
+printf '{"Replace":{"%s/compress/flate/zz_bounded_disttab_test.go":"/verif/bounded/disttab_test.go","%s/compress/flate/zz_bounded_clctab_test.go":"/verif/bounded/clctab_test.go","%s/compress/flate/zz_bounded_littab_test.go":"/verif/bounded/littab_test.go","%s/compress/flate/internal/huffman/zz_bounded_huffman_test.go":"/verif/bounded/huffman_test.go"}}' "$repo" "$repo" "$repo" "$repo" > $work/overlay.json
 run='TestBoundedDistTableReplay$'; [ "${VERIF_BOUNDED_KIND:-dist}" = clc ] && run='TestBoundedClcTableReplay$'; [ "${VERIF_BOUNDED_KIND:-dist}" = hdr ] && run='TestBoundedHeaderTablesReplay$'
-cd $repo && go test -overlay $work/overlay.json -vet=off -count=1 -timeout 60s -run "$run" -v ./compress/flate
+pkg=./compress/flate; [ "${VERIF_BOUNDED_KIND:-dist}" = huff ] && { run='TestBoundedHuffmanGenerateReplay$'; pkg=./compress/flate/internal/huffman; }
+cd $repo && go test -overlay $work/overlay.json -vet=off -count=1 -timeout 60s -run "$run" -v $pkg
